@@ -117,8 +117,9 @@ func parseArchInto(ret *Arch, arch string) error {
 func (set *ArchSet) Matches(other *Arch) bool {
 	/* If [!amd64 sparc] matches gnu-linux-any */
 
-	if len(set.Architectures) == 0 {
-		/* We're not a thing. Always true. */
+	if set == nil || len(set.Architectures) == 0 {
+		/* We're not a thing. Always true. (A Possibility put together by
+		 * hand has no ArchSet at all unless it was given one.) */
 		return true
 	}
 
